@@ -13,7 +13,7 @@ RULE = ("smooth networks (mass action orders 1-4 with repeats, Hill families wit
 ASSUMPTIONS = ["sympy differentiation of vlib/ref.py's rate equations is the analytic derivative",
                "error bound: h^4/30*M5, h^2/6*M3, h/2*M2 (x2) + 1e-9(1+|entry|) for np.round(.,10) + 50 eps max|f|/h"]
 RUN_OPTS = {"batch_size": 4, "timeout_per_case": 120.0}
-MINIMA = {"*": {"jacobian_entries": 1500, "sensitivity_entries": 1500, "nontrivial_entries": 300, "contract_evaluations": 200, "passes_after_inplace_update": 20}}
+MINIMA = {"*": {"jacobian_entries": 1500, "sensitivity_entries": 1500, "nontrivial_entries": 300, "contract_evaluations": 200, "passes_after_inplace_update": 20, "evaluations_at_nonzero_time": 40}}
 METHODS = ["fourth_order_central_difference", "central_difference", "forward_difference", "backward_difference"]
 
 
@@ -26,9 +26,9 @@ def gen_case(rnd):
         tag = "r%d" % i
         ty = rnd.choice(["massaction"] * 4 + list(gen.HILL) + ["general", "general"])
         if ty == "massaction":
-            order = rnd.randint(1, 4)
+            order = rnd.randint(0, 4)
             ms = gen.multiset(rnd, species, order)
-            if rnd.random() < 0.4:
+            if ms and rnd.random() < 0.4:
                 ms = [ms[0]] * order
             r = {"type": "massaction", "reactants": ms, "products": gen.multiset(rnd, species, rnd.randint(0, 2)),
                  "fields": {"k": gen.pfield(rnd, "k_" + tag, gen.nice(rnd, 0.1, 10), params)}}
@@ -39,7 +39,7 @@ def gen_case(rnd):
             r = {"type": ty, "reactants": gen.multiset(rnd, species, rnd.randint(0, 1)), "products": gen.multiset(rnd, species, rnd.randint(0, 2)), "fields": f}
         else:
             r = {"type": "general", "reactants": gen.multiset(rnd, species, rnd.randint(0, 1)), "products": gen.multiset(rnd, species, rnd.randint(1, 2)),
-                 "fields": {}, "ast": gen.general_ast(rnd, species, params, tag)}
+                 "fields": {}, "ast": gen.general_ast(rnd, species, params, tag, time_dep=rnd.random() < 0.3)}
         if rnd.random() < 0.2:
             r["delay"] = gen.delay_spec(rnd, species, {}, tag, named_prob=0.0)
             r["delay"]["reactants"] = []
@@ -191,16 +191,23 @@ def run_case(case):
             return {"error": "harness: parameter update %r not reflected by the model: %r" % (change, got_pd)}
         pvals = {P[p]: float(v) for p, v in pdict.items()}
         C["passes_after_inplace_update"] += 1
-      for st in (case["states"] if pi == 0 else case["states"][:1]):
+      for si, st in enumerate(case["states"] if pi == 0 else case["states"][1:] + case["states"][:1]):
+          if pi > 0 and si > 0:
+              break
+          # the first state of the first pass is evaluated at the default time (no keyword), every other one at the case's time
+          # t != 0: the rate equations' derivatives are asked for "at any state", also along a trajectory
+          tkw = {} if (pi == 0 and si == 0) else {"time": case["t"]}
+          if tkw:
+              C["evaluations_at_nonzero_time"] += 1
           xs = np.array([st[s] for s in species])
           sub_all = dict(pvals)
           sub_all.update({X[s]: st[s] for s in species})
-          sub_all[tsym] = 0.0
+          sub_all[tsym] = tkw.get("time", 0.0)
           fmax = max(abs(float(f[s].subs(sub_all))) for s in species) if species else 0.0
           for method in METHODS:
               before = dict(M.get_parameter_dictionary())
               try:
-                  J = py_get_jacobian(M, xs.copy(), method=method)
+                  J = py_get_jacobian(M, xs.copy(), method=method, **tkw)
               except Exception as e:
                   viol.append({"key": "C18/jacobian-raises", "msg": "py_get_jacobian(method=%s) raised %r" % (method, e)})
                   continue
@@ -225,7 +232,7 @@ def run_case(case):
               for pname in pdict:
                   before = dict(M.get_parameter_dictionary())
                   try:
-                      Z = py_get_sensitivity_to_parameter(M, xs.copy(), pname, method=method)
+                      Z = py_get_sensitivity_to_parameter(M, xs.copy(), pname, method=method, **tkw)
                   except Exception as e:
                       viol.append({"key": "C18/sensitivity-raises", "msg": "py_get_sensitivity_to_parameter(%s, method=%s) raised %r" % (pname, method, e)})
                       continue
